@@ -350,6 +350,15 @@ def run_case(case, ctx):
         if "mic" in chosen:
             cellnow = np.diag(S.cell) * (np.array(opt["replicate"]) if opt.get("replicate") else 1)
             opt["mic"] = float(np.round(rng.uniform(0.3, 0.75) * cellnow.min(), 2))
+            if case["s"] % 3 == 1 and ortho:
+                # a cut-off that is exactly k/2 edge lengths of the cell as the input file states it: k images suffice, not k + 1
+                from mofun import Atoms as _A
+                cellnow = np.diag(np.array(_A.load(inp).cell, float)) * (np.array(opt["replicate"]) if opt.get("replicate") else 1)
+                ax = int(rng.integers(3))
+                k = int(rng.integers(1, 3))
+                opt["mic"] = float(k * cellnow[ax] / 2)
+                if 2 * opt["mic"] / cellnow[ax] == k:
+                    st.count("mic_values_that_are_an_exact_multiple_of_half_an_edge")
             if case["s"] % 3 == 0:
                 # a cut-off that one cell edge only just misses (or only just meets): 2*mic is k edge lengths, give or take 2e-4 of one
                 ax = int(rng.integers(3))
@@ -418,6 +427,8 @@ def requirements(stats, tier):
     for o in OPTS[:9] + ["replace_without_find"]:
         if not stats.has("option_exercised_singly", o):
             need.append("option class %s never exercised singly" % o)
+    if stats.get("mic_values_that_are_an_exact_multiple_of_half_an_edge") < (5 if tier == "quick" else 500):
+        need.append("--mic values that are exactly k/2 edge lengths: %d" % stats.get("mic_values_that_are_an_exact_multiple_of_half_an_edge"))
     if stats.get("mic_values_within_a_few_1e-4_of_a_multiple_of_an_edge") < (5 if tier == "quick" else 500):
         need.append("--mic values that a cell edge only just misses or meets: %d" % stats.get("mic_values_within_a_few_1e-4_of_a_multiple_of_an_edge"))
     if stats.get("outputs_compared") < (180 if tier == "quick" else 30000):
